@@ -61,14 +61,17 @@ def run_member(ctx, name, member, timeout=600):
 
 def members_with_modules(ctx, name, nshards):
     out = []
-    for i in range(nshards):
-        mp = os.path.join(ws_dir(ctx, name), "s%d" % i, "meta.json")
-        if os.path.exists(mp):
+    d = ws_dir(ctx, name)
+    for member in sorted(os.listdir(d)) if os.path.isdir(d) else []:
+        mp = os.path.join(d, member, "meta.json")
+        if member.startswith("s") and os.path.exists(mp):
             meta = json.load(open(mp))
             if meta["modules"]:
-                out.append(("s%d" % i, meta))
+                out.append((member, meta))
     return out
 
 
 def cleanup_ws(ctx, name):
+    if os.environ.get("VH_KEEP"):
+        return
     shutil.rmtree(ws_dir(ctx, name), ignore_errors=True)
